@@ -250,9 +250,22 @@ func singleEdgeLoop(a, b Point) *Loop {
 	// Construct a loop consisting of the two vertices and their midpoint.  We
 	// use Interpolate() to ensure that the midpoint is very close to
 	// the edge even when its endpoints nearly antipodal.
-	vertices := []Point{a, b, Interpolate(0.5, a, b)}
-	loop := LoopFromPoints(vertices)
-	// The resulting loop may be clockwise, so invert it if necessary.
-	loop.Normalize()
-	return loop
+	m := Interpolate(0.5, a, b)
+	if m == a || m == b || !m.IsUnit() {
+		// A and B are so close together (within a few ulps, or parallel
+		// vectors of slightly different length) that their midpoint is not a
+		// third distinct point; the interpolation may even underflow and
+		// produce NaN. Use a vertex slightly off to the side of A instead, as
+		// singlePointLoop does.
+		const offset = 1e-15
+		m = Point{a.Add(a.Ortho().Mul(offset)).Normalize()}
+	}
+
+	// The three vertices are (nearly) collinear, so the turning angle that
+	// Loop.Normalize relies on is not meaningful here. Use the exact
+	// orientation predicate to make the loop counter-clockwise.
+	if RobustSign(a, b, m) != CounterClockwise {
+		a, b = b, a
+	}
+	return LoopFromPoints([]Point{a, b, m})
 }
